@@ -65,7 +65,8 @@ def strict_positions(ctx, labels, start, stop, step):
     return list(range(a, b - 1, step))
 
 
-def slice_1d(ctx, n, lkind, order, sk, ek, step, bkind, via='getitem', prime=False):
+def slice_1d(ctx, n, lkind, order, sk, ek, step, bkind, via='getitem', prime=False, under=None):
+    ctx.under(under)
     """1-D array, label slice on a monotonic / non-monotonic / str axis"""
     labels = ctx.labels(lkind, n, 'l', order=order if n >= 2 else None)
     start = _bound(ctx, sk, bkind, 'start')
@@ -213,7 +214,8 @@ def slice_nd(ctx, shape, kinds, step=None, order='inc', position=False, ellipsis
     return ctx.done(same(ctx, r[1], ref.select(sel)), ctx.observe(r[1]))
 
 
-def pos_slices(ctx, n, m, lkind, via):
+def pos_slices(ctx, n, m, lkind, via, under=None):
+    ctx.under(under)
     """position slices (.ix / iloc / take(indexing='position')): exactly python list slicing"""
     ls = ctx.labels(lkind, n, 'l')
     lo = ctx.labels('i', m, 'o')
@@ -263,6 +265,12 @@ def templates():
     for lkind, order in (('i', 'inc'), ('i', 'dec'), ('f', 'dec'), ('U', None), ('i', 'nonmono')):
         for step in STEPS:
             add('primed-%s-%s-step%s' % (lkind, order, step), 'slice_1d', cost=0.8, n=3, lkind=lkind, order=order, sk='sym', ek='sym', step=step, bkind=lkind, prime=True)
+    # explicit label entry points on arrays created under indexing.by = 'position'
+    for via in ('loc', 'sel'):
+        for step in (None, -1):
+            add('mono-via-%s-under-position-step%s' % (via, step), 'slice_1d', cost=0.5, n=3, lkind='i', order='inc' if step is None else 'dec', sk='sym', ek='sym', step=step, bkind='i', via=via, under={'indexing.by': 'position'})
+    for via in ('iloc', 'take'):
+        add('pos-%s-under-position' % via, 'pos_slices', cost=2.0, n=3, m=2, lkind='i', via=via, under={'indexing.by': 'position'})
     # spellings
     for via in ('take', 'loc', 'sel'):
         for step in (None, -1):
